@@ -155,16 +155,9 @@ func runC08(c *Ctx) {
 	{
 		fd := c.funcDecl("type1", "Font", "encodeCharstrings")
 		fname := "type1.(*Font).encodeCharstrings"
-		var ivLen int
-		ast.Inspect(fd.Body, func(n ast.Node) bool {
-			if cl, ok := n.(*ast.CompositeLit); ok {
-				if t := info.TypeOf(cl); t != nil && t.String() == "[]byte" && ivLen == 0 {
-					ivLen = len(cl.Elts)
-				}
-			}
-			return true
-		})
-		c.check(ivLen == 4, "W-CHARSTRINGIV", fname, "charstrings get four lead bytes (the default lenIV, no /lenIV is written)", fd.Pos(), fmt.Sprint(ivLen), fmt.Sprintf("charstrings are obfuscated with %d lead bytes but the template writes no /lenIV, so a decoder assumes 4", ivLen))
+		// the number of lead bytes is what the search hands to the obfuscator (read off the
+		// evaluation below, wherever and however the lead bytes are allocated)
+		ivLen := -1
 		// acceptance of a ciphertext: the function is evaluated on the SSA form for one glyph;
 		// the first ciphertext is the table value, the second one is acceptable for sure, so the
 		// number of obfuscation calls tells whether the first was accepted
@@ -191,6 +184,14 @@ func runC08(c *Ctx) {
 				}
 				if call.Common().StaticCallee() == obfFn {
 					calls++
+					if len(args) == 2 {
+						// every call of the obfuscator gets the same number of lead bytes
+						if el, ok := ev.elems(args[1]); ok && (ivLen == -1 || ivLen == len(el)) {
+							ivLen = len(el)
+						} else {
+							ivLen = -2
+						}
+					}
 					if calls == 1 {
 						return sv{k: svString, s: first}, true
 					}
@@ -234,12 +235,17 @@ func runC08(c *Ctx) {
 				bad = "a ciphertext starting with a space is accepted"
 			}
 		}
+		c.check(ivLen == 4, "W-CHARSTRINGIV", fname, "charstrings get four lead bytes (the default lenIV, no /lenIV is written)", fd.Pos(), fmt.Sprint(ivLen), fmt.Sprintf("charstrings are obfuscated with %d lead bytes but the template writes no /lenIV, so a decoder assumes 4", ivLen))
 		c.check(bad == "", "W-CHARSTRINGIV", fname, "lead bytes are searched until the ciphertext starts above 32 and is not all-hexadecimal in its first four bytes", fd.Pos(), "4 positions × 256 byte values evaluated", "lead-byte search: "+bad+" — `RD` data starting with white space or looking like hex would be misread")
 	}
 
 	c.noNarrowing()
+	c.eexecStream()
+	// the encoder tracks the position a decoder reconstructs (C20's rule): outlines survive
+	c.positionTracking(info)
 	c.pfbFraming(info)
 	c.templateStructure(info)
+	c.templateDataFields()
 	c.pdfLengths()
 	c.encodingWriter(info)
 }
@@ -391,9 +397,14 @@ func (c *Ctx) templateStructure(info *types.Info) {
 	c.check(okA, "W-TEMPLATE", name, "`currentfile eexec` ends the clear text exactly when encrypting", token.NoPos, "", "section A does not end with `currentfile eexec` under the EExec condition")
 	c.check(okB, "W-TEMPLATE", name, "the encrypted part ends with definefont and, when encrypting, `mark currentfile closefile`", token.NoPos, "", "section B does not end with `… definefont pop` followed by `mark currentfile closefile` under the EExec condition")
 	c.check(okC, "W-TEMPLATE", name, "trailer: 8 lines of 64 zeros and cleartomark, when encrypting", token.NoPos, "", "section C is not 8×64 zeros followed by cleartomark under the EExec condition")
-	// EExec flag: true unless FormatNoEExec
-	fd := c.funcDecl("type1", "Font", "makeTemplateData")
-	c.check(strings.Contains(nodeString(c, fd.Body), "EExec: opt.Format != FormatNoEExec"), "W-TEMPLATE", "type1.(*Font).makeTemplateData", "encryption markers are written for every format except the unencrypted one", fd.Pos(), "", "the EExec flag is not `Format != FormatNoEExec`")
+	// EExec flag: true unless FormatNoEExec — Write (every format) and WritePDF are evaluated on
+	// the SSA form up to their template executions; the flag the template sees is compared
+	flagPos := c.method("type1", "Font", "Write").Pos()
+	if fd := c.funcDeclOpt("type1", "Font", "makeTemplateData"); fd != nil {
+		flagPos = fd.Pos()
+	}
+	okFlag, whyFlag := c.eexecFlag()
+	c.check(okFlag, "W-TEMPLATE", "type1.(*Font).makeTemplateData", "encryption markers are written for every format except the unencrypted one", flagPos, "Write × 5 formats and WritePDF evaluated", "the EExec flag is not `Format != FormatNoEExec`: "+whyFlag)
 }
 
 func (c *Ctx) pdfLengths() {
@@ -520,169 +531,161 @@ func (c *Ctx) findCountingWriter(pkg string) (*types.TypeName, string, *ssa.Func
 }
 
 func (c *Ctx) encodingWriter(info *types.Info) {
-	fd := c.funcDecl("type1", "", "writeEncoding")
+	// writeEncoding is evaluated on the SSA form for encodings with known entries (the cells of
+	// the decision {.notdef, other} at the first, an inner and the last code, with the glyph of
+	// the entry present in or absent from the font).  String building is modelled (builder
+	// writes, Fprintf/Sprintf, Itoa, concatenation), the name serialiser is opaque and leaves a
+	// mark, so that the text the function returns can be compared with the text the Type 1
+	// format prescribes.  How the text is put together does not matter.
+	fn := c.fn("type1", "writeEncoding")
 	fname := "type1.writeEncoding"
-	var rng *ast.RangeStmt
-	ast.Inspect(fd.Body, func(n ast.Node) bool {
-		if r, ok := n.(*ast.RangeStmt); ok && rng == nil {
-			rng = r
+	psFn := c.method("postscript", "Name", "PS")
+	stdFn := c.fnOpt("type1", "isStandardEncoding")
+	encIdx := -1
+	for i, p := range fn.Params {
+		if sl, ok := p.Type().Underlying().(*types.Slice); ok {
+			if bt, ok := sl.Elem().Underlying().(*types.Basic); ok && bt.Info()&types.IsString != 0 && encIdx < 0 {
+				encIdx = i
+			}
 		}
-		return true
-	})
-	if rng == nil {
-		c.fail("W-ENCODING", fname, "explicit encoding loop", fd.Pos(), "no loop over the encoding")
+	}
+	if encIdx < 0 {
+		c.undecided("W-ENCODING", fname, "explicit encoding: 256 array preset to .notdef, every other entry written as `dup code /name put`", fn.Pos(), "writeEncoding has no parameter holding the encoding vector ([]string)")
 		return
 	}
-	valID, _ := rng.Value.(*ast.Ident)
-	keyID, _ := rng.Key.(*ast.Ident)
-	if valID == nil || keyID == nil {
-		c.fail("W-ENCODING", fname, "explicit encoding loop", rng.Pos(), "the loop does not bind code and name")
-		return
-	}
-	// which statement is the `dup code /name put` line
-	isPut := func(st ast.Stmt) bool {
-		found := false
-		ast.Inspect(st, func(n ast.Node) bool {
-			call, ok := n.(*ast.CallExpr)
-			if !ok || len(call.Args) < 4 {
-				return true
+	mark := func(name string) string { return "\u27e8" + name + "\u27e9" }
+	run := func(enc []string, present bool) (string, string) {
+		ev := &ssaEval{c: c, bind: map[ssa.Value]sv{}, mem: map[string]sv{}}
+		sm := &strModel{e: ev, text: map[string]string{}}
+		ev.oracle = func(op token.Token, x, y sv) (bool, bool) {
+			// an entry compared with a name the table does not know (a standard name): different
+			if (x.k == svString) != (y.k == svString) && (op == token.EQL || op == token.NEQ) {
+				return op == token.NEQ, true
 			}
-			if f, ok := constStrOf(info, call.Args[1]); !ok || f != "dup %d %s put\n" {
-				return true
-			}
-			if id, ok := call.Args[2].(*ast.Ident); !ok || info.ObjectOf(id) != info.ObjectOf(keyID) {
-				return true
-			}
-			// the name goes through Name(...).PS()
-			if ps, ok := call.Args[3].(*ast.CallExpr); ok {
-				if sel, ok := ps.Fun.(*ast.SelectorExpr); ok {
-					if m, ok := info.ObjectOf(sel.Sel).(*types.Func); ok && m.FullName() == "(seehuhn.de/go/postscript.Name).PS" {
-						uses := false
-						ast.Inspect(sel.X, func(m ast.Node) bool {
-							if id, ok := m.(*ast.Ident); ok && info.ObjectOf(id) == info.ObjectOf(valID) {
-								uses = true
-							}
-							return true
-						})
-						found = found || uses
-					}
+			return false, false
+		}
+		ev.call = func(call ssa.CallInstruction, args []sv) (sv, bool) {
+			if call == nil {
+				if len(args) == 3 && args[0].s == "lookup" {
+					// is there a glyph of that name in the font: fixed by the cell
+					return sv{k: svTuple, tup: []sv{symV("glyph"), boolV(present)}}, true
 				}
+				return sv{}, false
 			}
-			return true
-		})
-		return found
-	}
-	okSkip, okPut := true, false
-	why := ""
-	for _, isNotdef := range []bool{true, false} {
-		env := &aenv{info: info, vars: map[types.Object]aval{}}
-		env.hook = func(e ast.Expr) (aval, bool) {
-			be, ok := e.(*ast.BinaryExpr)
-			if !ok || (be.Op != token.EQL && be.Op != token.NEQ) {
-				return aval{}, false
-			}
-			x, y := be.X, be.Y
-			if id, ok := y.(*ast.Ident); ok && info.ObjectOf(id) == info.ObjectOf(valID) {
-				x, y = y, x
-			}
-			id, ok := x.(*ast.Ident)
-			if !ok || info.ObjectOf(id) != info.ObjectOf(valID) {
-				return aval{}, false
-			}
-			if sv, ok := constStrOf(info, y); ok && sv == ".notdef" {
-				return aval{isBool: true, b: isNotdef == (be.Op == token.EQL)}, true
-			}
-			return aval{}, false
-		}
-		var out outcome
-		func() {
-			defer func() {
-				if r := recover(); r != nil {
-					if e, ok := r.(evalErr); ok {
-						okSkip, why = false, "loop body not evaluable: "+e.msg
-						return
-					}
-					panic(r)
+			switch sc := call.Common().StaticCallee(); {
+			case sc != nil && sc == psFn:
+				if len(args) == 1 && args[0].k == svString {
+					return sv{k: svString, s: mark(args[0].s)}, true
 				}
-			}()
-			env.run(rng.Body.List, true, &out)
-		}()
-		wrote := false
-		for _, st := range out.stmts {
-			if isPut(st) {
-				wrote = true
+				return sv{}, false
+			case sc != nil && sc == stdFn:
+				return boolV(false), true // the cells are not the standard encoding
+			}
+			return sm.call(call, args)
+		}
+		var el []sv
+		for _, n := range enc {
+			el = append(el, sv{k: svString, s: n})
+		}
+		args := make([]sv, len(fn.Params))
+		for i := range args {
+			args[i] = symV(fmt.Sprintf("arg%d", i))
+		}
+		args[encIdx] = ev.newList(el)
+		ret := ev.runFunc(fn, args)
+		if sm.bad != "" {
+			return "", "not evaluable: " + sm.bad
+		}
+		if len(ret) != 1 || ret[0].k != svString {
+			return "", "not evaluable: " + ev.why
+		}
+		return ret[0].s, ""
+	}
+	want := func(enc []string) string {
+		var sb strings.Builder
+		sb.WriteString("/Encoding 256 array\n0 1 255 {1 index exch /.notdef put} for\n")
+		for i, n := range enc {
+			if n != ".notdef" {
+				fmt.Fprintf(&sb, "dup %d %s put\n", i, mark(n))
 			}
 		}
-		if wrote == isNotdef {
-			okSkip = false
-			if why == "" {
-				why = fmt.Sprintf("an entry that is .notdef: %v is written: %v", isNotdef, wrote)
+		sb.WriteString("readonly def\n")
+		return sb.String()
+	}
+	vec := func(set map[int]string) []string {
+		v := make([]string, 256)
+		for i := range v {
+			v[i] = ".notdef"
+			if n, ok := set[i]; ok {
+				v[i] = n
 			}
 		}
-		if wrote {
-			okPut = true
+		return v
+	}
+	all := map[int]string{}
+	for i := 0; i < 256; i++ {
+		all[i] = fmt.Sprintf("g%d", i)
+	}
+	cells := []struct {
+		what string
+		enc  []string
+	}{
+		{"every entry .notdef", vec(nil)},
+		{"a name at code 0 only", vec(map[int]string{0: "first"})},
+		{"a name at code 255 only", vec(map[int]string{255: "last"})},
+		{"names at codes 0, 1, 65, 66, 254, 255", vec(map[int]string{0: "a", 1: "b", 65: "A", 66: "notdef", 254: "y", 255: "z"})},
+		{"every entry a name", vec(all)},
+	}
+	bad := ""
+	for _, cl := range cells {
+		for _, present := range []bool{true, false} {
+			got, why := run(cl.enc, present)
+			if why == "" && got != want(cl.enc) {
+				why = "writes " + diffAt(got, want(cl.enc))
+			}
+			if why != "" && bad == "" {
+				bad = fmt.Sprintf("%s (glyphs of the names in the font: %v): %s", cl.what, present, why)
+			}
 		}
 	}
-	// constant lines before and after the loop
-	var before, after []string
-	ast.Inspect(fd.Body, func(n ast.Node) bool {
-		if call, ok := n.(*ast.CallExpr); ok {
-			for _, a := range call.Args {
-				if sv, ok := constStrOf(info, a); ok {
-					if call.Pos() < rng.Pos() {
-						before = append(before, sv)
-					} else if call.Pos() > rng.End() {
-						after = append(after, sv)
-					}
-				}
-			}
-		}
-		return true
-	})
-	has := func(l []string, s string) bool {
-		for _, x := range l {
-			if x == s {
-				return true
-			}
-		}
-		return false
-	}
-	okInit := has(before, "/Encoding 256 array\n") && has(before, "0 1 255 {1 index exch /.notdef put} for\n") && has(after, "readonly def\n")
-	c.check(okSkip && okPut && okInit, "W-ENCODING", fname, "explicit encoding: 256 array preset to .notdef, every other entry written as `dup code /name put`", rng.Pos(), "decision over {.notdef, other}", fmt.Sprintf("explicit encoding: exactly the .notdef entries are skipped: %v (%s), `dup code /name put` with an escaped name: %v, array preset and closed: %v", okSkip, why, okPut, okInit))
+	c.check(bad == "", "W-ENCODING", fname, "explicit encoding: 256 array preset to .notdef, every other entry written as `dup code /name put`", fn.Pos(), fmt.Sprintf("%d encodings × glyph present/absent evaluated, text compared", len(cells)), "explicit encoding: "+bad)
 	// length guard: no Encoding entry unless there are 256 entries
-	okLen := true
-	if len(fd.Type.Params.List) > 0 && len(fd.Type.Params.List[0].Names) > 0 {
-		encObj := info.Defs[fd.Type.Params.List[0].Names[0]]
-		for _, L := range []int64{0, 1, 255, 257} {
-			env := &aenv{info: info, vars: map[types.Object]aval{}}
-			env.hook = func(e ast.Expr) (aval, bool) {
-				if call, ok := e.(*ast.CallExpr); ok && len(call.Args) == 1 {
-					if id, ok := call.Fun.(*ast.Ident); ok && id.Name == "len" {
-						if a, ok := call.Args[0].(*ast.Ident); ok && info.ObjectOf(a) == encObj {
-							return aval{i: L}, true
-						}
-					}
-				}
-				return aval{}, false
-			}
-			var out outcome
-			empty := false
-			func() {
-				defer func() { recover() }()
-				if env.run(fd.Body.List, true, &out) && out.kind == "return" && len(out.stmts) > 0 {
-					if r, ok := out.stmts[len(out.stmts)-1].(*ast.ReturnStmt); ok && len(r.Results) == 1 {
-						if sv, ok := constStrOf(info, r.Results[0]); ok && sv == "" {
-							empty = true
-						}
-					}
-				}
-			}()
-			if !empty {
-				okLen = false
-			}
+	badLen := ""
+	for _, L := range []int{0, 1, 255, 257} {
+		enc := make([]string, L)
+		for i := range enc {
+			enc[i] = fmt.Sprintf("g%d", i)
 		}
-	} else {
-		okLen = false
+		got, why := run(enc, true)
+		if (why != "" || got != "") && badLen == "" {
+			badLen = fmt.Sprintf("%d entries: %s%s", L, why, diffAt(got, ""))
+		}
 	}
-	c.check(okLen, "W-ENCODING", fname, "no Encoding entry unless the font has a 256-entry encoding", fd.Pos(), "lengths 0, 1, 255, 257 return the empty string", "writeEncoding does not return the empty string for an encoding whose length is not 256")
+	c.check(badLen == "", "W-ENCODING", fname, "no Encoding entry unless the font has a 256-entry encoding", fn.Pos(), "lengths 0, 1, 255, 257 return the empty string", "writeEncoding does not return the empty string for an encoding whose length is not 256: "+badLen)
+}
+
+// diffAt renders the first place where got differs from want.
+func diffAt(got, want string) string {
+	if got == want {
+		return ""
+	}
+	i := 0
+	for i < len(got) && i < len(want) && got[i] == want[i] {
+		i++
+	}
+	lo := i - 12
+	if lo < 0 {
+		lo = 0
+	}
+	cut := func(s string) string {
+		hi := i + 28
+		if hi > len(s) {
+			hi = len(s)
+		}
+		if lo > len(s) {
+			return ""
+		}
+		return s[lo:hi]
+	}
+	return fmt.Sprintf("%q where %q is expected (offset %d)", cut(got), cut(want), i)
 }
